@@ -561,7 +561,7 @@ def unversioned_constants(name):
     from metador_core.plugins import schemas
 
     out = []
-    ver, S = _SCHEMAS[name]
+    ver, S = _schemas()[name]
     consts = dict(getattr(S, "__constants__", {}) or {})
     if not consts:
         return out
@@ -681,6 +681,10 @@ def run(tier, seed):
     hangs = 0
     with parallel.make_pool(MOD, {"seed": seed}) as pool:
         # simplest first: atoms, then composite types (results come back in item order)
+        # constants through the class objects handed out without a version
+        for vl in pool.map("unversioned_constants", names, chunk=1, item_deadline=120):
+            if vl != parallel.HANG:
+                viols.extend(vl)
         order = sorted(range(len(items)), key=lambda k: (G.depth(G.parse_texpr(items[k]["type"])), k))
         items = [items[k] for k in order]
         res = pool.map("run_gen", items, chunk=6, item_deadline=120)
@@ -824,6 +828,9 @@ def replay(data):
                 return {"sig": want, "input": inp, "what": what}
         part, form, what = fails[0]
         return {"sig": dict(want, part=part, form=form), "input": inp, "what": what}
+    if inp["kind"] == "unversioned":
+        vl = unversioned_constants(inp["schema"])
+        return vl[0] if vl else None
     if inp["kind"] == "installed":
         if "deviation" not in inp:
             r = run_installed(tuple(inp["item"]))
